@@ -15,6 +15,7 @@ frames (x2 pictures when pictures are fields, hence even), ``pic_num`` =
 sample a Python ``int`` in [0, 2^depth - 1] with depth = bit length of the
 excursion; ``mid_gray`` is 2^(depth-1) everywhere.
 """
+import copy
 import os
 
 import mc
@@ -239,7 +240,22 @@ def check_config(cfg):
     vp = make_vp(cfg)
     vp_before = dict(vp)
     try:
-        pictures = list(call_generator(gen, vp, cfg["pcm"]))
+        # consume lazily, as the encoder does: take a picture, use it up (the library's own
+        # picture_encode works in place on what it is given), only then ask for the next one
+        pictures = []
+        for pic in call_generator(gen, vp, cfg["pcm"]):
+            pictures.append(copy.deepcopy(pic))
+            if isinstance(pic, dict):
+                for c in ("Y", "C1", "C2"):
+                    rows = pic.get(c)
+                    if type(rows) is list:
+                        for r in rows:
+                            if type(r) is list:
+                                for i in range(len(r)):
+                                    r[i] = -7
+                                r.append(-7)
+                        rows.append([-7])
+                pic["pic_num"] = -1
     except Exception as e:  # noqa
         return ["%s raised %s: %s" % (gen, type(e).__name__, e)], False
     problems = []
